@@ -65,7 +65,7 @@ class GroupBy:
             self._columns = [columns]
         self._group_keys = {}
 
-    def _map(self, collect_columns: Union[str, List[str]]) -> Dict[int, Dict[str, List[Any]]]:
+    def _map(self, collect_columns: Union[str, List[str]]) -> Dict[tuple, Dict[str, List[Any]]]:
         """
         Maps the dataset into groups based on given columns.
 
@@ -90,8 +90,9 @@ class GroupBy:
         )
 
         for record in self._dictset:
-            # Create a unique hash for each group
-            group_key = hash(tuple(record[col] for col in group_column_indicies))
+            # The group is identified by its key values themselves: distinct keys may
+            # share a hash (hash(-1) == hash(-2)) and must not be merged
+            group_key = tuple(record[col] for col in group_column_indicies)
 
             if group_key not in self._group_keys:
                 self._group_keys[group_key] = [
